@@ -30,8 +30,17 @@ Definition snap_eqb (a b : snap) : bool :=
   zl_eqb k1 k2 && nl_eqb i1 i2 && nl_eqb q1 q2 && onl_eqb l1 l2 && nl_eqb d1 d2 && (n1 =? n2)%nat.
 Definition osnap_eqb (a b : option snap) : bool :=
   match a, b with None, None => true | Some x, Some y => snap_eqb x y | _, _ => false end.
+(* Where the model's call raises, the call is a misuse of the API (add before the initial samples, a strict add or a
+   selective removal without a threshold, an empty soft batch, removal / finalise without live points): the property
+   says nothing about it, so whatever the implementation does from there on is accepted HERE; its snapshots are still
+   subject to the direct predicate of harness/c04.py, which does not use the model. *)
 Fixpoint tr_eqb (a b : list (option snap)) : bool :=
-  match a, b with [], [] => true | x :: a', y :: b' => osnap_eqb x y && tr_eqb a' b' | _, _ => false end.
+  match a, b with
+  | [], [] => true
+  | None :: _, _ :: _ => true
+  | Some x :: a', Some y :: b' => snap_eqb x y && tr_eqb a' b'
+  | _, _ => false
+  end.
 
 Definition mkrow (k : Z) (i : nat) : srow * qrow := ({| key := k; sid := i |}, i).
 
